@@ -107,6 +107,14 @@ def build(w):
     g = w.classes['g']
     g.fields.update({'acquires': IntS, 'reaped': IntS, 'sending': IntS, 'failed_sends': IntS})
     w.classes['Sem'].methods['acquire'] = ext_sem_acquire
+    # the condition's lock, for the lock discipline of release() / grow(): test and update under one hold of the lock
+    w.cls('SemCond', fields={'held': BoolS}, methods={
+        'with_enter': lambda ex, a, k: (ex.path.write_field(a[0], 'held', mk_bool(True)), SNone())[1],
+        'with_exit': lambda ex, a, k: (ex.path.write_field(a[0], 'held', mk_bool(False)), SNone())[1],
+        'notify': noop, 'notify_all': noop})
+    w.classes['Sem'].fields['_cond'] = ref('SemCond')
+    LOCKED = {'_value': 'self._cond.held', '_initial_value': 'self._cond.held'}
+    cond_free = 'allocated(self._cond) and not self._cond.held'
     w.externals.update({
         'threading.Semaphore.__init__': ext_sem_init,
         'threading.Semaphore.release': ext_sem_release_base,
@@ -121,17 +129,17 @@ def build(w):
         raises={'ValueError': {'negative': 'value < 0'}},
     )
     grow = Contract(
-        'pool.LaxBoundedSemaphore.grow', prop=PROP, params=S, requires={'bounded': I6},
-        modifies=['self._value', 'self._initial_value'],
+        'pool.LaxBoundedSemaphore.grow', prop=PROP, params=S, requires={'bounded': I6, 'cond': cond_free},
+        modifies=['self._value', 'self._initial_value', 'self._cond.held'], guarded=LOCKED,
         ensures={'bounded': I6, 'one_more_slot': 'self._initial_value == old(self._initial_value) + 1 and '
-                                                 'self._value == old(self._value) + 1'},
+                                                 'self._value == old(self._value) + 1', 'lock_released': 'not self._cond.held'},
     )
     release = Contract(
-        'pool.LaxBoundedSemaphore.release', prop=PROP, params=S, requires={'bounded': I6},
-        modifies=['self._value', 'g.releases'], ghost_entry=ghost_release,
+        'pool.LaxBoundedSemaphore.release', prop=PROP, params=S, requires={'bounded': I6, 'cond': cond_free},
+        modifies=['self._value', 'g.releases', 'self._cond.held'], ghost_entry=ghost_release, guarded=LOCKED,
         ensures={'bounded': I6,
                  'gives_back_one_unless_full': 'self._value == old(self._value) + ite(old(self._value) < self._initial_value, 1, 0)',
-                 'counted': 'g.releases == old(g.releases) + 1'},
+                 'counted': 'g.releases == old(g.releases) + 1', 'lock_released': 'not self._cond.held'},
     )
     clear = Contract(
         'pool.LaxBoundedSemaphore.clear', prop=PROP, params=S, requires={'bounded': I6},
@@ -152,7 +160,7 @@ def build(w):
         externals={'pool.Pool._join_exited_workers': ext_join_exited,
                    'pool.Pool._repopulate_pool': noop},
         requires={'sem': 'self._putlock is None or (allocated(val(self._putlock)) and '
-                         'val(self._putlock)._value >= 0 and val(self._putlock)._value <= val(self._putlock)._initial_value)'},
+                         'val(self._putlock)._value >= 0 and val(self._putlock)._value <= val(self._putlock)._initial_value and allocated(val(self._putlock)._cond) and not val(self._putlock)._cond.held)'},
         modifies=['Sem._value', 'g.releases', 'g.reaped'],
         loops={0: {'inv': {'one_release_per_reaped_worker': 'implies(self._putlock is not None, g.releases == old(g.releases) + _i)',
                            'bounded': 'self._putlock is None or (val(self._putlock)._value >= 0 and '
@@ -172,7 +180,7 @@ def build(w):
             on_ready = it
     on_ready.prop = PROP
     on_ready.requires = dict(on_ready.requires, sem='putlock is None or (allocated(val(putlock)) and '
-                             'val(putlock)._value >= 0 and val(putlock)._value <= val(putlock)._initial_value)')
+                             'val(putlock)._value >= 0 and val(putlock)._value <= val(putlock)._initial_value and allocated(val(putlock)._cond) and not val(putlock)._cond.held)')
     on_ready.modifies = on_ready.modifies + ['Sem._value']
     for d in [on_ready.ensures] + list(on_ready.raises.values()):
         d['semaphore_bounded'] = ('putlock is None or (val(putlock)._value >= 0 and '
